@@ -607,6 +607,8 @@ def _op():
 @st.composite
 def history_strategy(draw, tier):
   max_ops = 12 if tier == 'quick' else 25
+  # Hypothesis lists lean short; a drawn lower bound keeps long histories common.
+  min_ops = [1, 3, 5, 8] if tier == 'quick' else [1, 4, 8, 14]
   ids = draw(ids_strategy())
   clients = [{'id': i, 'n': draw(st.integers(0, 5))} for i in ids]
   return {
@@ -614,7 +616,7 @@ def history_strategy(draw, tier):
       'x_dtype': draw(st.sampled_from(['int32', 'int64'])),
       'y_dtype': draw(st.sampled_from([None, 'float32', 'float64'])),
       'split': draw(st.integers(0, 8)),
-      'ops': draw(st.lists(_op(), min_size=draw(st.sampled_from([1, 1, 3, 6])),
+      'ops': draw(st.lists(_op(), min_size=draw(st.sampled_from(min_ops)),
                            max_size=max_ops)),
       'req': draw(st.lists(st.integers(0, 7), max_size=5)),
       'batch_size': draw(st.integers(1, 6)),
@@ -742,7 +744,7 @@ def slice_labels(case):
 CHECKS = [
     Check(name='histories', run=run_history, strategy=history_strategy,
           labels=labels, nontrivial=nontrivial,
-          budget={'quick': 4000, 'thorough': 48000},
+          budget={'quick': 1200, 'thorough': 24000},
           time_share=4.0,
           doc='lock-step interpretation of a generated view-operation tree on '
               'in-memory / SQLite / subset-over-each and a dict model; every '
